@@ -971,4 +971,197 @@ theorem encodeTarget_clean (t s : Str) (hv : ∀ c ∈ t, c < 0x110000) (h : enc
         · simp at hc
   · simp at h
 
+/-! ## re-sending: the invariant of `urlopen`'s recursion -/
+
+/-- bodies whose iteration leaves them unchanged and that need no re-positioning -/
+def Stable : Body → Prop
+  | .none | .bytes _ | .str _ | .buffer _ _ => True
+  | .iter _ one => one = false
+  | .file _ => False
+
+theorem bodyToChunks_after_stable {b : Body} {m : Str} {bs : Nat} {cc : ChunksCL} (hs : Stable b)
+    (h : bodyToChunks b m bs = .ok cc) : cc.after = b := by
+  cases b with
+  | none => simp [bodyToChunks] at h; subst h; rfl
+  | bytes x => simp [bodyToChunks] at h; subst h; rfl
+  | str s =>
+    simp only [bodyToChunks, bind, Except.bind] at h
+    split at h
+    · simp at h
+    · simp [pure, Except.pure] at h; subst h; rfl
+  | buffer x k => simp [bodyToChunks] at h; subst h; rfl
+  | file f => exact absurd hs (by simp [Stable])
+  | iter cs one =>
+    simp only [Stable] at hs; subst hs
+    simp [bodyToChunks] at h; subst h; rfl
+
+theorem request_after_stable (cfg : Cfg) (m t : Str) (hs : List (Str × Str)) (b : Body) (ch : Bool)
+    (hb : Stable b) : (request cfg m t hs b ch).after = b := by
+  unfold request
+  cases hp : prepare cfg m t hs b ch with
+  | error e => rfl
+  | ok p =>
+    obtain ⟨l0, cc, fr, ua, hs', _, _, hcc, _, _, _, rfl⟩ := prepare_inv hp
+    exact bodyToChunks_after_stable hb hcc
+
+theorem setFilePosition_stable {b : Body} (hb : Stable b) : setFilePosition b .none = .ok (b, .none) := by
+  cases b <;> simp_all [setFilePosition, Stable]
+
+/-- same file object, possibly at another position -/
+def SameFile (f0 f : FileB) : Prop :=
+  f.content = f0.content ∧ f.seek = f0.seek ∧ f.tell = f0.tell ∧ f.text = f0.text
+
+theorem request_after_file (cfg : Cfg) (m t : Str) (hs : List (Str × Str)) (f : FileB) (ch : Bool) :
+    ∃ f', (request cfg m t hs (.file f) ch).after = .file f' ∧ SameFile f f' := by
+  unfold request
+  cases hp : prepare cfg m t hs (.file f) ch with
+  | error e => exact ⟨f, rfl, rfl, rfl, rfl, rfl⟩
+  | ok p =>
+    obtain ⟨l0, cc, fr, ua, hs', _, _, hcc, _, _, _, rfl⟩ := prepare_inv hp
+    simp [bodyToChunks] at hcc
+    subst hcc
+    exact ⟨_, rfl, rfl, rfl, rfl, rfl⟩
+
+theorem sameFile_eq {f0 f : FileB} (h : SameFile f0 f) : { f with pos := f0.pos } = f0 := by
+  obtain ⟨h1, h2, h3, h4⟩ := h
+  cases f; cases f0; simp_all
+
+/-- the call did not fail, or it failed with the error of sending some request (never because of
+re-positioning the body) -/
+def ResultOk (cfg : Cfg) (target : Str) (chunked : Bool) (r : HResult) : Prop :=
+  r.result = .ok () ∨
+  ∃ e m hs b, r.result = .error e ∧ (request cfg m target hs b chunked).sent.err = some e
+
+theorem nextPos_none (lvl : Level) : nextPos lvl .none = .none := by cases lvl <;> rfl
+
+theorem cons_all303 {cfg : Cfg} {target : Str} {chunked : Bool} (a : Attempt) (h : HResult) (ha : a.after303 = true)
+    (H : (∀ x ∈ h.attempts, x.after303 = true) ∧ ResultOk cfg target chunked h) :
+    (∀ x ∈ (⟨a :: h.attempts, h.result⟩ : HResult).attempts, x.after303 = true) ∧
+      ResultOk cfg target chunked ⟨a :: h.attempts, h.result⟩ := by
+  refine ⟨?_, H.2⟩
+  intro x hx
+  simp only [List.mem_cons] at hx
+  rcases hx with rfl | hx
+  · exact ha
+  · exact H.1 x hx
+
+theorem sendHistory_after303 (lvl : Level) (cfg : Cfg) (target : Str) (chunked : Bool) (hist : List Outcome) :
+    ∀ st : HState, st.after303 = true → st.body = .none → st.pos = .none →
+      (∀ a ∈ (sendHistory lvl cfg target chunked hist st).attempts, a.after303 = true) ∧
+      ResultOk cfg target chunked (sendHistory lvl cfg target chunked hist st) := by
+  induction hist with
+  | nil => intro st _ _ _; simp [sendHistory, ResultOk]
+  | cons o rest ih =>
+    intro st h3 hb hp
+    have hsf : setFilePosition st.body st.pos = .ok (.none, .none) := by rw [hb, hp]; rfl
+    have haft : (request cfg st.meth target st.headers .none chunked).after = .none :=
+      request_after_stable _ _ _ _ _ _ trivial
+    simp only [sendHistory, hsf]
+    by_cases hc : o = .connErr
+    · simp only [hc, if_true]
+      exact ih _ h3 rfl rfl
+    · simp only [hc, if_false]
+      cases herr : (request cfg st.meth target st.headers .none chunked).sent.err with
+      | some e =>
+        simp only
+        refine ⟨by simp [h3], Or.inr ⟨e, _, _, _, rfl, herr⟩⟩
+      | none =>
+        simp only
+        cases o with
+        | connErr => exact absurd rfl hc
+        | ok => simp [h3, ResultOk]
+        | readErr => exact cons_all303 _ _ h3 (ih _ h3 haft rfl)
+        | retryStatus => exact cons_all303 _ _ h3 (ih _ h3 haft rfl)
+        | redirectKeep => exact cons_all303 _ _ h3 (ih _ h3 haft (nextPos_none lvl))
+        | redirect303 => exact cons_all303 _ _ h3 (ih _ rfl rfl (nextPos_none lvl))
+
+/-- the invariant of `urlopen`'s recursion before any 303: either the body is stable and no position is
+recorded, or (pool level) the body is the initial seekable + tellable file, at any position, and the
+recorded position — if one is recorded already — is the initial one -/
+def Inv (lvl : Level) (b0 body : Body) (pos : BodyPos) : Prop :=
+  (Stable b0 ∧ body = b0 ∧ pos = .none) ∨
+  (lvl = .pool ∧ ∃ f0 f, b0 = .file f0 ∧ f0.seek = .ok ∧ f0.tell = .ok ∧ body = .file f ∧ SameFile f0 f ∧
+     ((pos = .none ∧ f.pos = f0.pos) ∨ pos = .int f0.pos))
+
+theorem inv_step (cfg : Cfg) {lvl : Level} {b0 body : Body} {pos : BodyPos} (h : Inv lvl b0 body pos) :
+    ∃ pos1, setFilePosition body pos = .ok (b0, pos1) ∧ Inv lvl b0 b0 pos1 ∧
+      (∀ m t hs ch, Inv lvl b0 (request cfg m t hs b0 ch).after pos1) ∧
+      (∀ m t hs ch, Inv lvl b0 (request cfg m t hs b0 ch).after (nextPos lvl pos1)) ∧
+      (Stable b0 → pos1 = .none) := by
+  rcases h with ⟨hs, rfl, rfl⟩ | ⟨rfl, f0, f, rfl, hsk, htl, rfl, hsame, hpos⟩
+  · refine ⟨.none, setFilePosition_stable hs, Or.inl ⟨hs, rfl, rfl⟩, ?_, ?_, fun _ => rfl⟩
+    · intro m t h ch; exact Or.inl ⟨hs, request_after_stable _ _ _ _ _ _ hs, rfl⟩
+    · intro m t h ch; exact Or.inl ⟨hs, request_after_stable _ _ _ _ _ _ hs, nextPos_none _⟩
+  · have hinv0 : Inv .pool (.file f0) (.file f0) (.int f0.pos) :=
+      Or.inr ⟨rfl, f0, f0, rfl, hsk, htl, rfl, ⟨rfl, rfl, rfl, rfl⟩, Or.inr rfl⟩
+    have hafter : ∀ m t hs ch, Inv .pool (.file f0) (request cfg m t hs (.file f0) ch).after (.int f0.pos) := by
+      intro m t hs ch
+      obtain ⟨f', hf', hs'⟩ := request_after_file cfg m t hs f0 ch
+      exact Or.inr ⟨rfl, f0, f', rfl, hsk, htl, hf', hs', Or.inr rfl⟩
+    refine ⟨.int f0.pos, ?_, hinv0, hafter, hafter, fun hst => absurd hst (by simp [Stable])⟩
+    have hfe := sameFile_eq hsame
+    rcases hpos with ⟨rfl, hp⟩ | rfl
+    · have : f = f0 := by rw [← hfe, ← hp]
+      subst this
+      simp [setFilePosition, htl]
+    · have hsk' : f.seek = .ok := by rw [hsame.2.1, hsk]
+      simp only [setFilePosition, rewindBody, hsk', Except.map]
+      rw [← hsk', hfe]
+
+theorem cons_wire {cfg : Cfg} {target : Str} {chunked : Bool} {W : Bytes} (a : Attempt) (h : HResult)
+    (ha : a.after303 = false → a.wire = W)
+    (H : (∀ x ∈ h.attempts, x.after303 = false → x.wire = W) ∧ ResultOk cfg target chunked h) :
+    (∀ x ∈ (⟨a :: h.attempts, h.result⟩ : HResult).attempts, x.after303 = false → x.wire = W) ∧
+      ResultOk cfg target chunked ⟨a :: h.attempts, h.result⟩ := by
+  refine ⟨?_, H.2⟩
+  intro x hx
+  simp only [List.mem_cons] at hx
+  rcases hx with rfl | hx
+  · exact ha
+  · exact H.1 x hx
+
+theorem sendHistory_inv (lvl : Level) (cfg : Cfg) (target : Str) (chunked : Bool) (meth : Str)
+    (hs : List (Str × Str)) (b0 : Body) (hist : List Outcome) (h303 : ¬ Stable b0 → Outcome.redirect303 ∉ hist) :
+    ∀ (body : Body) (pos : BodyPos), Inv lvl b0 body pos →
+      (∀ a ∈ (sendHistory lvl cfg target chunked hist ⟨meth, hs, body, pos, false⟩).attempts,
+          a.after303 = false → a.wire = (request cfg meth target hs b0 chunked).sent.written) ∧
+      ResultOk cfg target chunked (sendHistory lvl cfg target chunked hist ⟨meth, hs, body, pos, false⟩) := by
+  induction hist with
+  | nil => intro body pos _; simp [sendHistory, ResultOk]
+  | cons o rest ih =>
+    have ih' := ih (fun hn hm => h303 hn (by simp [hm]))
+    intro body pos hinv
+    obtain ⟨pos1, hsf, hi0, hia, hin, hst⟩ := inv_step cfg hinv
+    simp only [sendHistory, hsf]
+    by_cases hc : o = .connErr
+    · simp only [hc, if_true]
+      exact ih' _ _ hi0
+    · simp only [hc, if_false]
+      cases herr : (request cfg meth target hs b0 chunked).sent.err with
+      | some e =>
+        simp only
+        refine ⟨by simp, Or.inr ⟨e, _, _, _, rfl, herr⟩⟩
+      | none =>
+        simp only
+        cases o with
+        | connErr => exact absurd rfl hc
+        | ok => simp [ResultOk]
+        | readErr => exact cons_wire _ _ (fun _ => rfl) (ih' _ _ (hia _ _ _ _))
+        | retryStatus => exact cons_wire _ _ (fun _ => rfl) (ih' _ _ (hia _ _ _ _))
+        | redirectKeep => exact cons_wire _ _ (fun _ => rfl) (ih' _ _ (hin _ _ _ _))
+        | redirect303 =>
+          have hstable : Stable b0 := by
+            by_cases hS : Stable b0
+            · exact hS
+            · exact absurd (by simp) (h303 hS)
+          have hp1 := hst hstable
+          subst hp1
+          have := sendHistory_after303 lvl cfg target chunked rest
+            { meth := lit "GET", headers := pmc hs, body := .none, after303 := true, pos := nextPos lvl .none }
+            rfl rfl (nextPos_none lvl)
+          refine cons_wire _ _ (fun _ => rfl) ⟨?_, this.2⟩
+          intro x hx hx3
+          rw [this.1 x hx] at hx3
+          exact absurd hx3 (by simp)
+
 end U3.Wire
